@@ -706,7 +706,7 @@ pub fn run(ctx: &Arc<Ctx>) {
     let _ = frob_images();
     let pr = sm9::params();
     let (pp, n) = (pr.p.clone(), pr.n.clone());
-    ctx.set_rule("Fp and mod N: limb-pattern + boundary alphabets, unary ops on all, binary ops on all x extreme (thorough all x all). Fp2: all 24x24 boundary elements, unary on all, binary on all pairs. Fp4: all 6^4 elements over {0,1,p-1,2,seeded x2}, unary on all, binary on all x 64 (thorough all pairs). Fp12: one element per subset of zero components (4096) + basis + +-1: unary ops (sqr, inv, neg, double, triple, div2, Frobenius 1/2/3/6, to_bytes) on all, pow with boundary exponents and exponents with long runs of one bits, mul/add/sub against 64 partners, sparse line multiplication with every zero pattern of its 3 coefficients. Booth recoding for w in {5,7}: every k < 2^16, every d*2^(wi) and 2^(w(i+1)) - d*2^(wi). G1/G2: [j]P x 4 Jacobian representations + infinity (j incl. lambda, lambda^2 with lambda^2+lambda+1 = 0 mod N: different points with the same y), all ordered pairs through add / sub / add_full / equality, equality against the infinities the library itself produces (zero(), P-P, [N]P, g_mul(0)), unary ops, scalar multiplication over every Booth (window, digit) combination, boundary scalars, the point at infinity as the base, the point at infinity in 5 (G1) / 15 (G2) Jacobian encodings (t^2 : t^3 : 0) met with finite points and itself, G1 points with x = 0 and with the smallest positive / largest x in 4 representations, and every scalar within 300 (thorough 1200) of 0 and of N, all 37x64 fixed-base table entries. Oracle: polynomial-basis Fp12 = Fp[w]/(w^12+2) and affine big-integer group law.");
+    ctx.set_rule("Fp and mod N: limb-pattern + boundary alphabets, unary ops on all, binary ops on all x extreme (thorough all x all). Fp2: all 24x24 boundary elements, unary on all, binary on all pairs. Fp4: all 6^4 elements over {0,1,p-1,2,seeded x2}, unary on all, binary on all x 64 (thorough all pairs). Fp12: one element per subset of zero components (4096) + basis + +-1: unary ops (sqr, inv, neg, double, triple, div2, Frobenius 1/2/3/6, to_bytes) on all, pow with boundary exponents, exponents with long runs of one bits and all exponents below N whose limbs are in {0, 1, 5, 2^64-1}, mul/add/sub against 64 partners, sparse line multiplication with every zero pattern of its 3 coefficients. Booth recoding for w in {5,7}: every k < 2^16, every d*2^(wi) and 2^(w(i+1)) - d*2^(wi). G1/G2: [j]P x 4 Jacobian representations + infinity (j incl. lambda, lambda^2 with lambda^2+lambda+1 = 0 mod N: different points with the same y), all ordered pairs through add / sub / add_full / equality, equality against the infinities the library itself produces (zero(), P-P, [N]P, g_mul(0)), unary ops, scalar multiplication over every Booth (window, digit) combination, boundary scalars, the point at infinity as the base, the point at infinity in 5 (G1) / 15 (G2) Jacobian encodings (t^2 : t^3 : 0) met with finite points and itself, G1 points with x = 0 and with the smallest positive / largest x in 4 representations, and every scalar within 300 (thorough 1200) of 0 and of N, all 37x64 fixed-base table entries. Oracle: polynomial-basis Fp12 = Fp[w]/(w^12+2) and affine big-integer group law.");
     let mut cases: Vec<Case> = Vec::new();
     let hx = |x: &BigUint| hexbig(x);
     let mut g = SplitMix::new(ctx.seed, "c13");
@@ -864,6 +864,26 @@ pub fn run(ctx: &Arc<Ctx>) {
             b[0] = e;
             cases.push(Case::Fp12 { op: "pow".into(), a: s12(a), b: s12(&b) });
         }
+    }
+    // exponents with every pattern of limbs over {0, 1, 5, 2^64-1}: 256 four-limb values (a shortcut that looks at some
+    // limbs only, a leading-limb count that also counts inner zero limbs, a top limb that is forgotten)
+    {
+        let lv = [BigUint::zero(), BigUint::one(), BigUint::from(5u32), (BigUint::one() << 64usize) - 1u32];
+        let mut count = 0;
+        for a in el12.iter().step_by(2048) {
+            for i in 0..256usize {
+                let e = (0..4).fold(BigUint::zero(), |acc, j| acc + (&lv[(i >> (2 * j)) & 3] << (64 * j)));
+                if e >= n {
+                    // Fp12::pow asserts its exponent is at most N - 1
+                    continue;
+                }
+                let mut b = z12.clone();
+                b[0] = e;
+                cases.push(Case::Fp12 { op: "pow".into(), a: s12(a), b: s12(&b) });
+                count += 1;
+            }
+        }
+        ctx.cov("fp12_pow_limb_pattern_exponents", json!(count));
     }
     for a in el12.iter().step_by(ctx.tier.pick(32, 4)) {
         for zmask in 0..64u32 {
